@@ -543,3 +543,222 @@ def u_mustfail_sum(W, sk):
     out = W.call(lambda: x.sum_to(("c", "a")))
     wrong = SL.marg(X, ("a", "c"))  # wrong: source order instead of requested order
     SL.check_same_array(W, "sum_to(wrong order)", out, wrong)
+
+
+# ----------------------------------------------------------------------------------------
+# constructors, factories, copy (C13, C15)
+
+
+def sk_ctor(tier):
+    out = []
+    for k in range(0, _rank(tier, 3, 4) + 1):
+        for case in ("none", "ndarray_same", "ndarray_free", "ndarray_rank-1", "ndarray_rank+1", "number", "bad_type"):
+            if case == "ndarray_rank-1" and k == 0:
+                continue
+            out.append({"x": ALPHA[:k], "case": case})
+    return out
+
+
+@unit(
+    "arrays.constructor",
+    props=["C13", "C15"],
+    targets=["flodym.flodym_arrays.FlodymArray.copy_dims", "flodym.flodym_arrays.FlodymArray.validate_values", "flodym.flodym_arrays.FlodymArray._check_value_format"],
+    skeletons=sk_ctor,
+    note="constructor: None -> zeros; ndarray accepted iff its shape is exactly the dims' shape; a number only for 0 dimensions; the caller's DimensionSet is copied",
+)
+def u_ctor(W, sk):
+    from flodym.flodym_arrays import FlodymArray
+    from .dimensions import mk_set
+
+    D = mk_dims(W, sk["x"])
+    dims = [D[l] for l in sk["x"]]
+    S = mk_set(W, dims)
+    ssnap = (S.dim_list, list(S.dim_list))
+    own = [W.size_of(d) for d in dims]
+    k = len(dims)
+    case = sk["case"]
+    accepted = True
+    v = None
+    if case == "none":
+        out = W.call(lambda: FlodymArray(dims=S))
+        exp = SL.const(W, dims, 0)
+    elif case == "number":
+        c = W.number("c")
+        out = W.call(lambda: FlodymArray(dims=S, values=c))
+        exp = SL.const(W, dims, c)
+        accepted = k == 0
+    elif case == "bad_type":
+        out = W.call(lambda: FlodymArray(dims=S, values="abc"))
+        accepted = False
+    else:
+        if case == "ndarray_same":
+            shape = list(own)
+        elif case == "ndarray_free":
+            shape = [W.size_of(W.dim(l, tag=f"m_{l}")) for l in sk["x"]]
+        elif case == "ndarray_rank-1":
+            shape = list(own[1:])
+        else:
+            shape = list(own) + [W.size_of(W.dim("v"))]
+        v = W.ndarray("v", shape)
+        out = W.call(lambda: FlodymArray(dims=S, values=v))
+        if len(shape) != k:
+            accepted = False
+        else:
+            conds = [W.size_eq(a, b) for a, b in zip(shape, own)]
+            accepted = bool(core.sand(*conds) if W.symbolic else all(conds))
+        if accepted:
+            exp = SL.lab_of_values(W, v, dims)
+    if accepted:
+        SL.check_same_array(W, f"ctor[{case}]", out, exp)
+        if out.kind == "return":
+            r = out.value
+            W.prove("ctor.dims_copied", r.dims is not S and r.dims.dim_list is not S.dim_list, kind="ownership")
+    else:
+        SL.check_raises(W, f"ctor[{case}]", out, ValueError)
+    W.prove("ctor.argument_set_unchanged", len(S.dim_list) == len(ssnap[1]) and all(a is b for a, b in zip(S.dim_list, ssnap[1])), kind="frame")
+
+
+def sk_factories(tier):
+    return [{"x": ALPHA[:k]} for k in range(0, _rank(tier, 3, 4) + 1)]
+
+
+@unit(
+    "arrays.factories_and_copy",
+    props=["C13", "C15"],
+    targets=[
+        "flodym.flodym_arrays.FlodymArray.full",
+        "flodym.flodym_arrays.FlodymArray.full_like",
+        "flodym.flodym_arrays.FlodymArray.scalar",
+        "flodym.flodym_arrays.FlodymArray.from_dims_superset",
+        "flodym.flodym_arrays.FlodymArray.copy",
+        "flodym.flodym_arrays.FlodymArray.shape",
+    ],
+    skeletons=sk_factories,
+)
+def u_factories(W, sk):
+    from flodym.flodym_arrays import FlodymArray
+    from .dimensions import mk_set
+
+    D = mk_dims(W, sk["x"])
+    dims = [D[l] for l in sk["x"]]
+    x = W.array("x", dims)
+    X = SL.lab(W, x)
+    S = mk_set(W, dims)
+    c = W.number("c")
+    snaps = SL.snapshot(W, [x])
+    out = W.call(lambda: FlodymArray.full(S, c))
+    SL.check_same_array(W, "full", out, SL.const(W, dims, c))
+    if out.kind == "return":
+        W.prove("full.dims_copied", out.value.dims is not S and out.value.dims.dim_list is not S.dim_list, kind="ownership")
+    out = W.call(lambda: FlodymArray.full_like(x, c))
+    SL.check_same_array(W, "full_like", out, SL.const(W, dims, c), fresh_from=[x], own_dims_from=[x])
+    out = W.call(lambda: x.copy())
+    SL.check_same_array(W, "copy", out, X, fresh_from=[x], own_dims_from=[x])
+    out = W.call(lambda: FlodymArray.scalar(c))
+    SL.check_same_array(W, "scalar", out, SL.const(W, [], c))
+    for sub in ordered_subsets(sk["x"], 2):
+        out = W.call(lambda: FlodymArray.from_dims_superset(S, tuple(sub)))
+        SL.check_same_array(W, f"from_dims_superset[{sub}]", out, SL.const(W, [D[l] for l in sub], 0))
+    out = W.call(lambda: FlodymArray.from_dims_superset(S))
+    SL.check_same_array(W, "from_dims_superset[all]", out, SL.const(W, dims, 0))
+    if out.kind == "return":
+        W.prove("from_dims_superset.dims_copied", out.value.dims is not S and out.value.dims.dim_list is not S.dim_list, kind="ownership")
+    SL.check_unchanged(W, "factories", snaps)
+    W.prove("factories.superset_unchanged", len(S.dim_list) == len(dims) and all(a is b for a, b in zip(S.dim_list, dims)), kind="frame")
+
+
+# ----------------------------------------------------------------------------------------
+# stacking and splitting (C04, C06, C15): the stacked / split dimension has a concrete number of
+# items (enumerated 1..3), every other size is symbolic
+
+
+def sk_stack(tier):
+    out = []
+    for k in range(0, _rank(tier, 2, 3) + 1):
+        for n in (1, 2, 3):
+            out.append({"x": ALPHA[:k], "n": n})
+    return out
+
+
+@unit(
+    "arrays.stack_and_split",
+    props=["C04", "C06", "C13", "C15"],
+    targets=["flodym.flodym_array_helper.flodym_array_stack", "flodym.flodym_arrays.FlodymArray.split", "flodym.flodym_arrays.FlodymArray.__setitem__", "flodym.flodym_arrays.FlodymArray.__getitem__"],
+    skeletons=sk_stack,
+    note="number of stacked arrays / items of the split dimension enumerated 1..3 (bounded); all other sizes symbolic",
+)
+def u_stack(W, sk):
+    from flodym.flodym_array_helper import flodym_array_stack
+    from flodym.dimensions import Dimension
+
+    D = mk_dims(W, sk["x"])
+    dims = [D[l] for l in sk["x"]]
+    n = sk["n"]
+    new = Dimension(name="Stacked", letter="z", items=[f"z{j}" for j in range(n)])
+    arrs = [W.array(f"x{j}", dims) for j in range(n)]
+    labs = [SL.lab(W, a) for a in arrs]
+    snaps = SL.snapshot(W, arrs)
+    out = W.call(lambda: flodym_array_stack(arrs, new))
+
+    def entry(asg):
+        j = asg["z"]
+        if isinstance(j, int):
+            return labs[j].at(asg)
+        e = labs[n - 1].at(asg)
+        for q in range(n - 2, -1, -1):
+            e = core.site(j == q, labs[q].at(asg), e)
+        return e
+
+    exp = SL.Lab(W, tuple(sk["x"]) + ("z",), {**{l: D[l] for l in sk["x"]}, "z": new}, entry)
+    SL.check_same_array(W, "stack", out, exp, fresh_from=arrs, own_dims_from=arrs)
+    SL.check_unchanged(W, "stack", snaps)
+    if out.kind != "return":
+        return
+    st = out.value
+    ssnap = SL.snapshot(W, [st])
+    sp = W.call(lambda: st.split("z"))
+    W.prove("split.returns", sp.kind == "return", detail=repr(sp))
+    if sp.kind == "return":
+        d = sp.value
+        W.prove("split.keys", isinstance(d, dict) and list(d.keys()) == list(new.items), detail=str(list(d.keys()) if isinstance(d, dict) else d))
+        if isinstance(d, dict) and list(d.keys()) == list(new.items):
+            for j, it in enumerate(new.items):
+                part = d[it]
+                if SL.check_wf(W, f"split[{j}]", part, fresh_from=[st], own_dims_from=[st]):
+                    P = SL.lab(W, part)
+                    ok = P.letters == tuple(sk["x"])
+                    W.prove(f"split[{j}].letters", ok)
+                    if ok:
+                        W.forall(f"split[{j}].entries", [W.size_of(D[l]) for l in sk["x"]], (lambda P, j: lambda idx: W.num_eq(P.at(dict(zip(sk["x"], idx))), labs[j].at(dict(zip(sk["x"], idx)))))(P, j))
+    SL.check_unchanged(W, "split", ssnap)
+
+
+# ----------------------------------------------------------------------------------------
+# items_where (data-dependent shape: bounded run-time contract only)
+
+
+@unit(
+    "arrays.items_where",
+    props=["C06"],
+    targets=["flodym.flodym_arrays.FlodymArray.items_where"],
+    skeletons=lambda tier: [{"x": ALPHA[:k]} for k in range(1, 4)],
+    mode="bounded",
+    note="items_where returns one row of item labels per entry satisfying the condition: exactly the true labels (bounded: concrete arrays only, np.argwhere has a data-dependent shape)",
+)
+def u_items_where(W, sk):
+    import numpy as np
+
+    D = mk_dims(W, sk["x"])
+    dims = [D[l] for l in sk["x"]]
+    x = W.array("x", dims)
+    thr = 0.0
+    out = W.call(lambda: x.items_where(lambda v: v > thr))
+    W.prove("items_where.returns", out.kind == "return", detail=repr(out))
+    if out.kind != "return":
+        return
+    rows = [tuple(r) for r in np.asarray(out.value).reshape(-1, len(dims)).tolist()] if np.asarray(out.value).size else []
+    want = []
+    for idx in np.ndindex(*x.values.shape):
+        if x.values[idx] > thr:
+            want.append(tuple(str(d.items[i]) for d, i in zip(dims, idx)))
+    W.prove("items_where.exactly_the_true_labels", sorted(rows) == sorted(want) and len(rows) == len(set(rows)), detail=f"got {rows[:4]} want {want[:4]}")
